@@ -272,7 +272,8 @@ def run_case(case, drv):
             if po in cp and pd in cp:
                 dist = dm[cp.index(po)][cp.index(pd)]
                 fee = dfee[pd] if pd in dfee else sfee[pd]
-                if t != F(dist / 665.0) or c != F(dist * 0.09 + fee):
+                tol = Fraction(1, 10 ** 9)       # real-valued data: a different but equivalent float expression must not alarm
+                if abs(t - F(dist / 665.0)) > tol * max(1, abs(t)) or abs(c - F(dist * 0.09 + fee)) > tol * max(1, abs(c)):
                     res.fail("arcdata:g1", f"G1 arc {o}->{d} has time/cost {float(t)},{float(c)}; expected {dist / 665.0},{dist * 0.09 + fee}")
                     break
         return res
@@ -291,7 +292,7 @@ def run_case(case, drv):
             return res
         st = MU.mirp_state(m)
         regular = [nm for p in st["supply"] + st["demand"] for nm in st["mapping"][p]]
-        kind_oracle(res, m.vrptw, 1, regular, f"(random MIRP seed {case['seed']})")
+        kind_oracle(res, m.vrptw, m.cargo_size, regular, f"(random MIRP seed {case['seed']})")
         res.nontrivial = len(regular) >= 2
         return res
 
@@ -317,10 +318,10 @@ def run_case(case, drv):
                 res.disagree(key, st[key], mstate[key])
         if st["g"]["nodes"] != mstate["g"]["nodes"]:
             res.disagree("nodes", st["g"]["nodes"], mstate["g"]["nodes"])
-        if st["g"]["arcs"] != mstate["g"]["arcs"]:
+        if sorted(st["g"]["arcs"]) != sorted(mstate["g"]["arcs"]):      # the property is about the arc SET
             a, b = st["g"]["arcs"], mstate["g"]["arcs"]
             diff = [x for x in a if x not in b][:3], [x for x in b if x not in a][:3]
-            res.disagree("arc dict (key, endpoints, time, cost; in insertion order)", diff[0], diff[1])
+            res.disagree("arc set (key, endpoints, time, cost)", diff[0], diff[1])
         if (st["g"]["cap"], st["g"]["init"]) != (mstate["g"]["cap"], mstate["g"]["init"]):
             res.disagree("vessel", (st["g"]["cap"], st["g"]["init"]), (mstate["g"]["cap"], mstate["g"]["init"]))
     # the MIRP's own bookkeeping must not follow what the caller did to the lists add_nodes returned
